@@ -149,12 +149,13 @@ func ToV3Operation(doc2 *openapi2.T, components *openapi3.Components, pathItem *
 		return nil, nil
 	}
 	doc3 := &openapi3.Operation{
-		OperationID: operation.OperationID,
-		Summary:     operation.Summary,
-		Description: operation.Description,
-		Deprecated:  operation.Deprecated,
-		Tags:        operation.Tags,
-		Extensions:  stripNonExtensions(operation.Extensions),
+		OperationID:  operation.OperationID,
+		Summary:      operation.Summary,
+		Description:  operation.Description,
+		Deprecated:   operation.Deprecated,
+		Tags:         operation.Tags,
+		ExternalDocs: operation.ExternalDocs,
+		Extensions:   stripNonExtensions(operation.Extensions),
 	}
 	if v := operation.Security; v != nil {
 		doc3Security := ToV3SecurityRequirements(*v)
@@ -299,11 +300,12 @@ func ToV3Parameter(components *openapi3.Components, parameter *openapi2.Paramete
 			schemaRefRef = schemaRef.Ref
 		}
 		result := &openapi3.Parameter{
-			In:          parameter.In,
-			Name:        parameter.Name,
-			Description: parameter.Description,
-			Required:    required,
-			Extensions:  stripNonExtensions(parameter.Extensions),
+			In:              parameter.In,
+			Name:            parameter.Name,
+			Description:     parameter.Description,
+			Required:        required,
+			AllowEmptyValue: parameter.AllowEmptyValue,
+			Extensions:      stripNonExtensions(parameter.Extensions),
 			Schema: ToV3SchemaRef(&openapi2.SchemaRef{Value: &openapi2.Schema{
 				Type:            parameter.Type,
 				Format:          parameter.Format,
@@ -525,6 +527,9 @@ func ToV3SchemaRef(schema *openapi2.SchemaRef) *openapi3.SchemaRef {
 	if schema.Value.Items != nil {
 		v3Schema.Items = ToV3SchemaRef(schema.Value.Items)
 	}
+	if schema.Value.Not != nil {
+		v3Schema.Not = ToV3SchemaRef(schema.Value.Not)
+	}
 	if schema.Value.Type.Is("file") {
 		v3Schema.Format, v3Schema.Type = "binary", &openapi3.Types{"string"}
 	}
@@ -564,6 +569,29 @@ func convertRefsInV3SchemaRef(from *openapi3.SchemaRef) *openapi3.SchemaRef {
 		v := *from.Value
 		to.Value = &v
 		to.Value.AdditionalProperties = toV3AdditionalProperties(to.Value.AdditionalProperties)
+	}
+	return &to
+}
+
+func fromV3AdditionalProperties(from openapi3.AdditionalProperties) openapi3.AdditionalProperties {
+	return openapi3.AdditionalProperties{
+		Has:    from.Has,
+		Schema: convertRefsInV2SchemaRef(from.Schema),
+	}
+}
+
+// convertRefsInV2SchemaRef is the inverse of convertRefsInV3SchemaRef: OpenAPI 2 keeps
+// additionalProperties as an OpenAPI 3 schema value whose references must point at OpenAPI 2 locations.
+func convertRefsInV2SchemaRef(from *openapi3.SchemaRef) *openapi3.SchemaRef {
+	if from == nil {
+		return nil
+	}
+	to := *from
+	to.Ref = FromV3Ref(to.Ref)
+	if to.Value != nil {
+		v := *from.Value
+		to.Value = &v
+		to.Value.AdditionalProperties = fromV3AdditionalProperties(to.Value.AdditionalProperties)
 	}
 	return &to
 }
@@ -920,11 +948,18 @@ func FromV3SchemaRef(schema *openapi3.SchemaRef, components *openapi3.Components
 		MaxProps:             schema.Value.MaxProps,
 		Properties:           make(openapi2.Schemas),
 		AllOf:                make(openapi2.SchemaRefs, len(schema.Value.AllOf)),
-		AdditionalProperties: schema.Value.AdditionalProperties,
+		AdditionalProperties: fromV3AdditionalProperties(schema.Value.AdditionalProperties),
+	}
+
+	if v := schema.Value.Discriminator; v != nil {
+		v2Schema.Discriminator = v.PropertyName
 	}
 
 	if v := schema.Value.Items; v != nil {
 		v2Schema.Items, _ = FromV3SchemaRef(v, components)
+	}
+	if v := schema.Value.Not; v != nil {
+		v2Schema.Not, _ = FromV3SchemaRef(v, components)
 	}
 
 	keys := make([]string, 0, len(schema.Value.Properties))
@@ -1062,12 +1097,13 @@ func FromV3Operation(doc3 *openapi3.T, operation *openapi3.Operation) (*openapi2
 		return nil, nil
 	}
 	result := &openapi2.Operation{
-		OperationID: operation.OperationID,
-		Summary:     operation.Summary,
-		Description: operation.Description,
-		Deprecated:  operation.Deprecated,
-		Tags:        operation.Tags,
-		Extensions:  stripNonExtensions(operation.Extensions),
+		OperationID:  operation.OperationID,
+		Summary:      operation.Summary,
+		Description:  operation.Description,
+		Deprecated:   operation.Deprecated,
+		Tags:         operation.Tags,
+		ExternalDocs: operation.ExternalDocs,
+		Extensions:   stripNonExtensions(operation.Extensions),
 	}
 	if v := operation.Security; v != nil {
 		resultSecurity := FromV3SecurityRequirements(*v)
@@ -1143,11 +1179,12 @@ func FromV3Parameter(ref *openapi3.ParameterRef, components *openapi3.Components
 		return nil, nil
 	}
 	result := &openapi2.Parameter{
-		Description: parameter.Description,
-		In:          parameter.In,
-		Name:        parameter.Name,
-		Required:    parameter.Required,
-		Extensions:  stripNonExtensions(parameter.Extensions),
+		Description:     parameter.Description,
+		In:              parameter.In,
+		Name:            parameter.Name,
+		Required:        parameter.Required,
+		AllowEmptyValue: parameter.AllowEmptyValue,
+		Extensions:      stripNonExtensions(parameter.Extensions),
 	}
 	if schemaRef := parameter.Schema; schemaRef != nil {
 		schemaRefV2, _ := FromV3SchemaRef(schemaRef, components)
@@ -1170,7 +1207,7 @@ func FromV3Parameter(ref *openapi3.ParameterRef, components *openapi3.Components
 		result.Items = schema.Items
 		result.MinItems = schema.MinItems
 		result.MaxItems = schema.MaxItems
-		result.AllowEmptyValue = schema.AllowEmptyValue
+		result.AllowEmptyValue = parameter.AllowEmptyValue || schema.AllowEmptyValue
 		// result.CollectionFormat = schema.CollectionFormat
 		result.UniqueItems = schema.UniqueItems
 		result.MultipleOf = schema.MultipleOf
